@@ -17,6 +17,7 @@ import (
 type c09Script struct {
 	nAn, nNs, nAr int
 	recLen        int
+	lastLen       int // > 0: one more answer record with this many octets of text (exact frame sizes)
 	tc            bool
 }
 
@@ -29,6 +30,16 @@ func c09Records(name vfkit.Name, section string, n, recLen int) []vfkit.RR {
 		out[i] = vfkit.RR{Owner: name, Type: 16, Class: 1, TTL: uint32(100 + i), RData: []vfkit.RDPart{{Raw: rd}}}
 	}
 	return out
+}
+
+// c09Answers is the answer section a script produces (the optional last record fixes the frame size).
+func c09Answers(name vfkit.Name, sc *c09Script) []vfkit.RR {
+	an := c09Records(name, "an", sc.nAn, sc.recLen)
+	if sc.lastLen > 0 {
+		body := bytes.Repeat([]byte{'z'}, sc.lastLen)
+		an = append(an, vfkit.RR{Owner: name, Type: 16, Class: 1, TTL: 7, RData: []vfkit.RDPart{{Raw: append([]byte{byte(len(body))}, body...)}}})
+	}
+	return an
 }
 
 func TestVfC09Listeners(t *testing.T) {
@@ -47,7 +58,7 @@ func TestVfC09Listeners(t *testing.T) {
 		sc := v.(*c09Script)
 		n := q.Msg.Q[0].Name
 		m := &vfkit.Msg{ID: q.Msg.ID, Bits: vfkit.BitQR | vfkit.BitRD | vfkit.BitRA, Q: q.Msg.Q}
-		m.An = c09Records(n, "an", sc.nAn, sc.recLen)
+		m.An = c09Answers(n, sc)
 		m.Ns = c09Records(n, "ns", sc.nNs, sc.recLen)
 		m.Ar = c09Records(n, "ar", sc.nAr, sc.recLen)
 		// compression keeps the upstream frame under 64 KiB even when the uncompressed form is larger
@@ -92,13 +103,21 @@ func TestVfC09Listeners(t *testing.T) {
 		if total < 0 {
 			total = 0
 		}
-		// keep the compressed upstream frame below 64 KiB
-		for 12+len(name.Wire())+4+total*(2+10+1+sc.recLen) > 65000 {
+		// keep the compressed upstream frame within 64 KiB
+		for 12+len(name.Wire())+4+total*(2+10+1+sc.recLen) > 65535 {
 			total--
 		}
 		sc.nNs = rapid.IntRange(0, min(total, 3)).Draw(t, "nNs")
 		sc.nAr = rapid.IntRange(0, min(total-sc.nNs, 3)).Draw(t, "nAr")
 		sc.nAn = total - sc.nNs - sc.nAr
+		if rapid.IntRange(0, 5).Draw(t, "edgeOf64K") == 0 {
+			// an upstream frame of exactly 65535-delta octets (delta 0..20): the proxy's own OPT no longer fits
+			sc.recLen, sc.nNs, sc.nAr = 200, 0, 0
+			target := 65535 - rapid.IntRange(0, 20).Draw(t, "delta")
+			base := 12 + len(name.Wire()) + 4
+			sc.nAn = (target - base - 13 - 100) / 213
+			sc.lastLen = target - base - sc.nAn*213 - 13
+		}
 		scripts.Store(label, sc)
 		defer scripts.Delete(label)
 		listener := rapid.SampledFrom([]string{"udp", "udp", "udp", "tcp", "gnet", "tls", "quic", "http", "fasthttp", "https"}).Draw(t, "listener")
@@ -113,7 +132,7 @@ func TestVfC09Listeners(t *testing.T) {
 		if listener == "udp" && len(res.Resps) == 0 {
 			res = a.Ask(listener, EncodeMsg(qm), 5*time.Second, 0)
 		}
-		desc := fmt.Sprintf("listener=%s edns=%d upstream records an=%d ns=%d ar=%d of %d octets", listener, edns, sc.nAn, sc.nNs, sc.nAr, sc.recLen)
+		desc := fmt.Sprintf("listener=%s edns=%d upstream records an=%d ns=%d ar=%d of %d octets (+ last record of %d)", listener, edns, sc.nAn, sc.nNs, sc.nAr, sc.recLen, sc.lastLen)
 		if res.Err != nil || len(res.Resps) != 1 {
 			t.Fatalf("no single response: err=%v n=%d status=%d; %s\n%s", res.Err, len(res.Resps), res.Status, desc, tail(p.Stderr(), 600))
 		}
@@ -150,7 +169,7 @@ func TestVfC09Listeners(t *testing.T) {
 		if (edns >= 0) != (nOPT == 1) {
 			t.Fatalf("OPT records in response: %d, query had OPT: %v; %s", nOPT, edns >= 0, desc)
 		}
-		wantAn, wantNs, wantAr := c09Records(name, "an", sc.nAn, sc.recLen), c09Records(name, "ns", sc.nNs, sc.recLen), c09Records(name, "ar", sc.nAr, sc.recLen)
+		wantAn, wantNs, wantAr := c09Answers(name, sc), c09Records(name, "ns", sc.nNs, sc.recLen), c09Records(name, "ar", sc.nAr, sc.recLen)
 		sub := func(got, want []vfkit.RR) bool {
 			j := 0
 			for i := range got {
@@ -179,7 +198,7 @@ func TestVfC09Listeners(t *testing.T) {
 				t.Fatalf("additional record not among the upstream's; %s", desc)
 			}
 		}
-		missing := sc.nAn + sc.nNs + sc.nAr - len(d.An) - len(d.Ns) - len(rest)
+		missing := len(wantAn) + sc.nNs + sc.nAr - len(d.An) - len(d.Ns) - len(rest)
 		if (missing > 0) != d.Has(vfkit.BitTC) {
 			t.Fatalf("%d records missing but TC=%v; %s", missing, d.Has(vfkit.BitTC), desc)
 		}
